@@ -565,6 +565,14 @@ func (w *c23World) startUnary(ctx context.Context, method string, req []byte, op
 
 // startStream runs NewStream, nsend SendMsg, CloseSend, then RecvMsg until error.
 func (w *c23World) startStream(ctx context.Context, method string, req []byte, nsend int, opts ...grpc.CallOption) *c23RPC {
+	return w.startStreamDesc(ctx, c23BidiDesc, 8, method, req, nsend, opts...)
+}
+
+// c23ClientStreamDesc: client-streaming, NOT server-streaming (CloseAndRecv style use).
+var c23ClientStreamDesc = &grpc.StreamDesc{StreamName: "m", ClientStreams: true, ServerStreams: false}
+
+// startStreamDesc is startStream with an explicit StreamDesc and a bound on the RecvMsg calls.
+func (w *c23World) startStreamDesc(ctx context.Context, desc *grpc.StreamDesc, maxRecv int, method string, req []byte, nsend int, opts ...grpc.CallOption) *c23RPC {
 	r := &c23RPC{w: w}
 	opts = append([]grpc.CallOption{grpc.ForceCodecV2(c23Codec{})}, opts...)
 	go func() {
@@ -576,7 +584,7 @@ func (w *c23World) startStream(ctx context.Context, method string, req []byte, n
 		var cs grpc.ClientStream
 		if r.op("NewStream", func() error {
 			var e error
-			cs, e = w.cc.NewStream(ctx, c23BidiDesc, method, opts...)
+			cs, e = w.cc.NewStream(ctx, desc, method, opts...)
 			return e
 		}) != nil {
 			return
@@ -587,7 +595,7 @@ func (w *c23World) startStream(ctx context.Context, method string, req []byte, n
 			}
 		}
 		r.op("CloseSend", cs.CloseSend)
-		for i := 0; i < 8; i++ {
+		for i := 0; i < maxRecv; i++ {
 			var m []byte
 			if err := r.op("RecvMsg", func() error { return cs.RecvMsg(&m) }); err != nil {
 				return
